@@ -132,6 +132,38 @@ void matrixLaws(Rng& rng, int variant) {
 	float err = 0;
 	for (int i = 0; i < 16; i++) err = std::max(err, std::fabs(p[i] - id[i]));
 	if (!(err <= 2e-3f)) bad("matrix4-inverse", fmt("max |M*M^-1 - I| = %g (scale %g)", err, T.scale));
+	{
+		// 4x4 matrices that are not plain transforms: a homogeneous multiple (last row 0 0 0 w), the sum of two transform matrices
+		// (w = 2), and a matrix with a projective last row; all well conditioned (moderate translation, determinant away from 0)
+		MatTransform S = randXform(rng, 4.0f);
+		S.scale = rng.range(0.5f, 2.0f);
+		Matrix4 base = S.ToMatrix();
+		float wgt = rng.coin() ? rng.range(0.25f, 0.8f) : rng.range(1.25f, 4.0f);
+		Matrix4 cand[3];
+		cand[0] = base * wgt;
+		{
+			MatTransform S2 = S;
+			S2.translation = randVec(rng, 4.0f);
+			cand[1] = base + S2.ToMatrix();   // same rotation and scale, other translation: 2 * (a transform matrix)
+		}
+		cand[2] = base;
+		cand[2][12] = rng.range(-0.05f, 0.05f); cand[2][13] = rng.range(-0.05f, 0.05f); cand[2][14] = rng.range(-0.05f, 0.05f); cand[2][15] = wgt;
+		static const char* CN[] = {"homogeneous-multiple", "sum-of-two", "projective-row"};
+		for (int q = 0; q < 3; q++) {
+			Matrix4 M = cand[q];
+			float det = M.Det();
+			if (!(std::fabs(det) > 0.02f)) continue;
+			Matrix4 inv = M.Inverse();
+			Matrix4 pr = M * inv, pl = inv * M;
+			float e = 0, ma = 0, mi = 0;
+			for (int i = 0; i < 16; i++) { e = std::max({e, std::fabs(pr[i] - id[i]), std::fabs(pl[i] - id[i])}); ma = std::max(ma, std::fabs(M[i])); mi = std::max(mi, std::fabs(inv[i])); }
+			if (!(e <= 2e-4f * (1.0f + ma * mi))) bad((std::string("matrix4-inverse/") + CN[q]).c_str(), fmt("max |M*M^-1 - I| = %g, last row (%g %g %g %g), det %g", e, M[12], M[13], M[14], M[15], det));
+			// determinant of a homogeneous multiple: det(k M) = k^4 det(M)
+			float k = rng.range(0.5f, 2.0f);
+			float dk = (M * k).Det(), want = k * k * k * k * det;
+			if (!(std::fabs(dk - want) <= 1e-4f * (std::fabs(want) + 1.0f))) bad((std::string("matrix4-det-scaling/") + CN[q]).c_str(), fmt("det(kM)=%g, k^4 det(M)=%g (k=%g)", dk, want, k));
+		}
+	}
 	Vector3 v = randVec(rng, 10.0f);
 	Vector3 w = i4 * (m4 * v);
 	if (w.DistanceTo(v) > 2e-3f * (1.0f + v.length())) bad("matrix4-inverse-apply", fmt("|w-v|=%g", w.DistanceTo(v)));
